@@ -28,10 +28,7 @@ class DefaultRegister(Register):
         :return: The success, or not, in the reading
         :rtype: bool
         """
-        if storage not in ["BINARY"]:
-            self.data = file.readline()
-        else:
-            self.data = None
+        self.data = file.readline()
         return True
 
     def write(self, file: IO, storage: str = "", *args, **kwargs) -> bool:
@@ -44,6 +41,6 @@ class DefaultRegister(Register):
         :return: The success, or not, in the writing
         :rtype: bool
         """
-        if storage not in ["BINARY"]:
+        if storage not in ["BINARY"] or isinstance(self.data, bytes):
             file.write(self.data)
         return True
